@@ -7,7 +7,9 @@ import (
 	"fmt"
 	"go/constant"
 	"go/token"
+	"regexp"
 	"sort"
+	"strings"
 
 	"golang.org/x/tools/go/ssa"
 )
@@ -178,6 +180,55 @@ func ruleBinPairsBAI(c *Ctx, r *Rep, tier string) {
 			}
 		}
 	})
+	// the walk itself: for every table row E, k runs from E.offset + beg>>E.shift
+	// to E.offset + (end-1)>>E.shift inclusive, in steps of one, and every k is
+	// appended (keys with the row's element written E)
+	{
+		elemRE := regexp.MustCompile(`&?local:slicelit\[:\]\[[^\]]*\]`)
+		norm := func(k string) string { return elemRE.ReplaceAllString(k, "E") }
+		okInit, okStep, okCond, okAppend := false, false, false, false
+		var kPhi *ssa.Phi
+		allInstrs(ofn, func(ins ssa.Instruction) {
+			if p, ok := ins.(*ssa.Phi); ok {
+				for _, e := range p.Edges {
+					if k := norm(symKey(e)); k == "(($0>>E.shift)+E.offset)" || k == "(E.offset+($0>>E.shift))" {
+						kPhi, okInit = p, true
+					}
+				}
+			}
+		})
+		if kPhi != nil {
+			for _, e := range kPhi.Edges {
+				if bo, ok := e.(*ssa.BinOp); ok && bo.Op == token.ADD && bo.X == ssa.Value(kPhi) {
+					if k, isK := constInt(bo.Y); isK && k == 1 {
+						okStep = true
+					}
+				}
+			}
+			allInstrs(ofn, func(ins ssa.Instruction) {
+				switch x := ins.(type) {
+				case *ssa.If:
+					if bo, ok := x.Cond.(*ssa.BinOp); ok && bo.Op == token.LEQ && bo.X == ssa.Value(kPhi) && (norm(symKey(bo.Y)) == "((($1-1)>>E.shift)+E.offset)" || norm(symKey(bo.Y)) == "(E.offset+(($1-1)>>E.shift))") {
+						okCond = true
+					}
+				case *ssa.Call:
+					if cc, ok := isBuiltinCall(x, "append"); ok && len(cc.Args) == 2 && strings.Contains(symKey(cc.Args[1]), symKey(kPhi)) {
+						okAppend = true
+					}
+				}
+			})
+		}
+		switch {
+		case !okInit:
+			why += " no loop variable starting at row.offset + beg>>row.shift;"
+		case !okStep:
+			why += " the bin variable does not advance by one;"
+		case !okCond:
+			why += " the loop does not run while k <= row.offset + (end-1)>>row.shift (same row, end-1, inclusive);"
+		case !okAppend:
+			why += " the bins walked are not appended to the list;"
+		}
+	}
 	if !hasLEQ {
 		why += " the bin loop is not inclusive of the last bin (k <= …);"
 	}
